@@ -633,7 +633,7 @@ def shard_contain(shard):
     if n == 4 and words and prefix in ("1L", "24", "3R"):
         w = words[len(words) // 2]
         G, D, P, NPL = w_tables(w, kmax)
-        u = max(G, key=lambda x: (len(x), len(G[x])))
+        u = max((x for x in G if 0 < len(x) < n), key=lambda x: (len(G[x]), len(x)))
         part.sample({"sub": "contain", "w": w, "u": u, "geometric_occurrences": G[u],
                      "perm_of_w": F.perm_of(w), "perm_of_u": F.perm_of(u)}, cap=1)
     payload = {"count": {"%s\t%s" % k: v for k, v in known.count.items()},
